@@ -104,11 +104,12 @@ PROPS = {
         outside=COMMON_OUTSIDE + ["zeta_k values with (h+1)k > 64 (the property does not claim the published form there)", "Golomb moduli above the stated bound"],
     ),
     "C05": dict(
+        pre=["scope"],
         prefixes=["c05_", "c03_w_gamma_tab", "c03_w_delta_tab", "c03_w_zeta3_tab", "c03_w_gamma_be", "c03_w_delta_be", "c03_w_zeta3_be", "c03_w_gamma_le", "c03_w_delta_le", "c03_w_zeta3_le"],
         level_text="Bounded model checking of table-driven vs bit-by-bit coding. Decoding: from an arbitrary representation-valid state of the REAL readers (BufBitReader over u16/u32/u64 words, BitReader) over a symbolic stream - hence every look-ahead pattern of every table at every buffer fill - the table variant and the plain variant return the same value and leave the same position and a valid state (gamma; delta in all table combinations; zeta3). Encoding/length tables: both variants are compared with the same definition for every value (C03/C04 harnesses *_tab_*), and the parameterless defaults of the real readers/writers agree with the plain variants.",
         assumptions=[
             "the plain decoder's precondition: the stream holds a codeword (first one bit within 20 / 6 / 11 bits for gamma / delta / zeta3, so that every field read is <= 64 bits)",
-            "readers whose construction emits the insufficient-look-ahead diagnostic are excluded by the property: BufBitReader<u8> (peek capability 8 bits < 9/11/12)",
+            "readers whose construction emits the insufficient-look-ahead diagnostic are excluded by the property; whether BufBitReader<u8> emits it per table is determined natively on the tree under test (bin diag_dump captures the stderr of constructing one) and the u8 harnesses c05_dec_*_u8_* check the reader exactly for the tables for which it does not",
             "strict-tail behaviour (fewer bits than the index width before the end): see C09 harnesses *_tab_*",
         ],
         outside=COMMON_OUTSIDE + ["the text of the diagnostic (checked natively)"],
